@@ -26,6 +26,16 @@ CLAIMS = {
         declined="the value returned by a forwarded query when an adaptor could substitute a different object of the same type; allocator symmetry of "
                  "allocate()/spawn (not yet armed).",
         technique="custom AST/CFG query over all receiver classes (libTooling facts) with a reasoned exemption table"),
+    'C20': dict(
+        decided="(a) assertion purity: no write, atomic RMW/store, protocol event or repository function with side effects is evaluated inside any UNIFEX_ASSERT/assert "
+                "(they vanish under NDEBUG); (b) configuration differential: every function and lambda present in two configurations (debug vs NDEBUG, C++17 vs C++20, "
+                "continuation visitation on/off) has an identical protocol projection (completions, child starts, atomics with orders, stop requests, lock/notify, state "
+                "writes, branch structure) outside assertions; (c) the two arms of every `if constexpr` on a build switch (async-stack support, NDEBUG, visitation) yield "
+                "the same set of protocol-event sequences to function exit; (d) async-stack balance: every ScopedAsyncStackRoot::activateFrame is balanced on all paths "
+                "(RAII destructor, ensureFrameDeactivated, or coroutine resumption) and the root is pushed/popped in its constructor/destructor.",
+        declined="equality of observable traces across builds as a differential execution; async_trace's reported chain; frame push/pop pairing across coroutine suspension "
+                 "points (not a single-function path fact).",
+        technique="cross-configuration AST/CFG differential + assertion-purity lint + path-set comparison of if-constexpr arms (libTooling facts)"),
 }
 
 
@@ -50,9 +60,9 @@ def main():
             level_claimed=dict(
                 category='other',
                 text='Static analysis of necessary structural conditions, on every path of the real source (template patterns included), in '
-                     '%s configurations (quick: c++20+gnu++17 with asserts; thorough adds NDEBUG and continuation-visitation builds). DECIDED: %s '
+                     '%s configurations (quick: c++20 and gnu++17 with asserts, gnu++17 NDEBUG = the pinned build; thorough adds c++20 NDEBUG and the continuation-visitation build). DECIDED: %s '
                      'NOT DECIDED (declined, see DESIGN.md section 5): %s A green check means these clauses hold on all paths; it does not prove the behavioural '
-                     'property for all schedules.' % ('2/5', c['decided'], c['declined']),
+                     'property for all schedules.' % ('3/5', c['decided'], c['declined']),
                 design_ref='DESIGN.md section 5 (%s), section 3.3 (rules %s)' % (pid, ', '.join(r['id'] for r in rules))),
             level_note='Trusted base: clang 14 front end and CFG builder; tools/usa-extract; the role tables in usa/rules (each row a named construct with a reason). '
                        'Rules report analysis-broken (exit 2) when an anchor construct cannot be found, never a pass.',
@@ -61,7 +71,7 @@ def main():
         version=1,
         setup_cmd='make -C /verif/tools',
         hooks=dict(guard='UNIFEX_VERIF', enable='none needed: the analysis reads the unmodified sources of /repo (no instrumentation, no hook commits)',
-                   baseline_off_cmd='cmake --build /repo/_build -j16 && ctest --test-dir /repo/_build -j8 --timeout 900',
+                   baseline_off_cmd='cmake --build /repo/_build -- -k 0 -j16; ctest --test-dir /repo/_build -j8 --timeout 900  # (two test targets, any_sender_of_test and async_manual_reset_event_v1_test, do not build in this sandbox and are not in the 467-test baseline)',
                    source_commits=[], add_only=True),
         engines=[dict(name='usa', path='/verif/usa', serves_properties=[c['property_id'] for c in checks],
                       kind_free_text='custom static analyser: libTooling extractor (tools/usa-extract.cc) emitting per-function event CFGs of template '
